@@ -78,7 +78,9 @@ def run_ext(chk, pid, P):
                               r.violated, c["name"], c["depth"], " ".join(B.trace_actions(r.stdout))))
         for e in g.edges:
             cov[e[1]["a"]] = cov.get(e[1]["a"], 0) + 1
-        walks, plan = graph.plan_tours(g, c["depth"], rng)
+        frac = c.get("edge_sample")       # quick tier: replay a seeded sample of the edges (TLC still checks every edge's properties)
+        filt = (lambda e, rr=random.Random(chk.seed * 7919 + 1): rr.random() < frac) if frac else None
+        walks, plan = graph.plan_tours(g, c["depth"], rng, edge_filter=filt, budget_s=300)
         extra = graph.random_walks(g, c.get("random", 200), c["depth"], rng)
         plans[c["name"]] = plan
         tr = time.time()
